@@ -107,11 +107,20 @@ const WEIGHTED_CHARS: &[&str] = &[
     "a", "b", "A", "_", "1", ".", " ", "\n", "\"", "\\", "/", "//", "///", "////", "\r", "\r\n", "é", "ℝ",
     "💣", "{", "}", "(", ")", "[", "]", "<<", ">>", "fn ", "let ", "case ", "type ", "pub ", "import ",
     "->", "<-", "|>", "|", "=", ",", ":", "#", "@", "-", "!", "<>", "..", "\t", "0x", "e", "E",
+    // code points editors and tools put into files without anyone typing them
+    "\u{feff}", "\u{a0}", "\u{2028}", "\u{85}", "\u{200b}", "\0", "\u{c}", "\u{b}", "\u{fffd}", "\u{10ffff}",
 ];
+
+/// What a file can start with before its first token: byte order mark (alone, before a line break,
+/// twice), NUL, Unicode line separators, a shebang line.
+pub const FILE_PREFIXES: &[&str] = &["\u{feff}", "\u{feff}\r\n", "\u{feff}\u{feff}", "\0", "\u{2028}", "\u{85}", "#!/usr/bin/env gleam\n"];
 
 pub fn random_text(c: &mut Choices, max: usize) -> String {
     let n = c.below(max);
     let mut s = String::new();
+    if c.chance(24) {
+        s.push_str(FILE_PREFIXES[c.below(FILE_PREFIXES.len())]);
+    }
     for _ in 0..n {
         s.push_str(WEIGHTED_CHARS[c.below(WEIGHTED_CHARS.len())]);
     }
@@ -123,7 +132,7 @@ impl Property for C01 {
         "C01"
     }
     fn rule(&self) -> String {
-        "cases: (a) ALL sequences of <=3 token classes of a 64-class alphabet (keywords, brackets, operators, identifier kinds, literals, trivia, lexer-error lexemes; thorough adds all length-4 sequences over a 42-class reduced alphabet) in 7 syntactic contexts, rendered concatenated and space-separated; (b) corpus + repo fixtures under token/char damage and truncation; (c) random strings from a weighted Unicode/keyword alphabet; (d) grammar-generated programs with random trivia. Oracle: preorder leaf walk == input bytes, ranges non-empty/contiguous/0..len, next_token chain identical, root range 0..len. Non-trivial = input has >=1 syntax error, or non-ASCII, or CR, or a comment; distinct by hash of the text (enumerated cases are sharded by text hash, so per-shard distinct counts add up exactly).".into()
+        "cases: (a) ALL sequences of <=3 token classes of a 64-class alphabet (keywords, brackets, operators, identifier kinds, literals, trivia, lexer-error lexemes; thorough adds all length-4 sequences over a 42-class reduced alphabet) in 7 syntactic contexts, rendered concatenated and space-separated, and all sequences of <=2 classes again behind each of 7 file prefixes (byte order mark alone / before CRLF / doubled, NUL, U+2028, U+0085, shebang line); (b) corpus + repo fixtures under token/char damage and truncation; (c) random strings from a weighted Unicode/keyword alphabet (incl. U+FEFF, U+00A0, U+2028, U+0085, U+200B, NUL, FF, VT, U+FFFD, U+10FFFF), one in ten behind a file prefix; (d) grammar-generated programs with random trivia. Oracle: preorder leaf walk == input bytes, ranges non-empty/contiguous/0..len, next_token chain identical, root range 0..len. Non-trivial = input has >=1 syntax error, or non-ASCII, or CR, or a comment; distinct by hash of the text (enumerated cases are sharded by text hash, so per-shard distinct counts add up exactly).".into()
     }
     fn assumptions(&self) -> Vec<String> {
         vec![
@@ -154,6 +163,16 @@ impl Property for C01 {
             let label = format!("enum full-alphabet len {}", len);
             enumerate(ctx, &full, len, &label, &mut |ctx, text| visit(ctx, text, &label, &mut local));
         }
+        // the same sequences of <=2 classes behind everything a file can start with
+        for prefix in FILE_PREFIXES {
+            for len in 0..=2 {
+                let label = format!("enum full-alphabet len {} behind a file prefix", len);
+                enumerate(ctx, &full, len, &label, &mut |ctx, text| {
+                    let t = format!("{}{}", prefix, text);
+                    visit(ctx, &t, "enum behind a file prefix (BOM, NUL, line separators, shebang)", &mut local)
+                });
+            }
+        }
         if ctx.tier == Tier::Thorough {
             let label = "enum reduced-alphabet len 4".to_string();
             enumerate(ctx, REDUCED, 4, &label, &mut |ctx, text| visit(ctx, text, &label, &mut local));
@@ -167,7 +186,10 @@ impl Property for C01 {
             let mut c = Choices::new(bytes);
             let (text, origin) = if !corpus.is_empty() && c.chance(170) {
                 let (_, src) = &corpus[c.below(corpus.len())];
-                let (t, _) = damage::damage(src, &mut c, 4);
+                let (mut t, _) = damage::damage(src, &mut c, 4);
+                if c.chance(20) {
+                    t = format!("{}{}", FILE_PREFIXES[c.below(FILE_PREFIXES.len())], t);
+                }
                 (t, "corpus damage")
             } else {
                 (random_text(&mut c, 60), "random text")
